@@ -1304,6 +1304,11 @@ where
                 })
             })
             .and_then(|size: usize| {
+                if size == 0 {
+                    // A zero-length element is an empty value, not a missing one
+                    // (`read_n_bytes` reports the latter when no bytes are left).
+                    return Ok(Some(FrameSlice::new_empty()));
+                }
                 self.slice.read_n_bytes(size).map_err(|err| {
                     mk_deser_err::<Self>(
                         self.collection_type,
